@@ -16,6 +16,11 @@ func writeSubsysExt(spec string, enc *json.Encoder, t int, sc *Scenario, tr *Tra
 			_ = enc.Encode(e)
 			n++
 		}
+	case "Rewards":
+		for _, e := range RewardEvents(t, sc, tr) {
+			_ = enc.Encode(e)
+			n++
+		}
 	case "Olvm":
 		for _, e := range OlvmEvents(t, sc, tr) {
 			_ = enc.Encode(e)
@@ -294,4 +299,148 @@ func mustHex(s string) []byte {
 		panic(err)
 	}
 	return b
+}
+
+// ---------------------------------------------------------------------------------
+// Rewards_Trace events (C13)
+
+type RwVote struct {
+	V      string `json:"v"`
+	P      int64  `json:"p"`
+	Signed bool   `json:"signed"`
+	Known  bool   `json:"known"` // the validator's record exists when the block begins
+}
+
+type RwYear struct {
+	Till int64 `json:"till"`
+	Dist int64 `json:"dist"`
+}
+
+type RwState struct {
+	Years     []RwYear                    `json:"years"`
+	Total     int64                       `json:"total"`
+	Chunk     map[string]map[string]int64 `json:"chunk"`
+	Matured   map[string]int64            `json:"matured"`
+	Withdrawn map[string]int64            `json:"withdrawn"`
+}
+
+type RwTx struct {
+	K      string `json:"k"`
+	V      string `json:"v"`
+	Signer string `json:"signer"`
+	A      int64  `json:"a"` // units
+}
+
+type RwEvent struct {
+	T        int              `json:"t"`
+	Ev       string           `json:"ev"`
+	H        int64            `json:"h"`
+	Times    []int64          `json:"times"`
+	Cycle    int64            `json:"cycle"`
+	Est      int64            `json:"est"`
+	Window   int64            `json:"window"`
+	Shares   []int64          `json:"shares"`
+	Closes   []int64          `json:"closes"`
+	Burnout  int64            `json:"burnout"`
+	Interval int64            `json:"interval"`
+	Pool     int64            `json:"pool"`
+	PoolPost int64            `json:"poolPost"`
+	Votes    []RwVote         `json:"votes"`
+	Deleg    bool             `json:"deleg"`
+	Credited map[string]int64 `json:"credited"` // block_rewards event: validator -> units credited in this block
+	NoEvent  bool             `json:"noEvent"`  // the block reported no block_rewards event
+	Restart  bool             `json:"restart"`  // the node was restarted before this block
+	Txs      []RwTx           `json:"txs"`
+	S        RwState          `json:"s"`
+}
+
+func rwState(s *AbsState) RwState {
+	o := RwState{Years: []RwYear{}, Total: s.RwTDist, Chunk: s.RwChunk, Matured: s.RwBal, Withdrawn: s.RwWd}
+	for _, y := range s.RwYears {
+		o.Years = append(o.Years, RwYear{Till: y.Till, Dist: y.Dist})
+	}
+	return o
+}
+
+func optAmounts(s *AbsState, opt, field string) []int64 {
+	var m map[string]json.RawMessage
+	if json.Unmarshal(s.Opts[opt], &m) != nil {
+		return nil
+	}
+	var raw []json.RawMessage
+	if json.Unmarshal(m[field], &raw) != nil {
+		return nil
+	}
+	var out []int64
+	for _, r := range raw {
+		v, _ := new(big.Int).SetString(strings.Trim(string(r), "\""), 10)
+		if v == nil {
+			v = new(big.Int)
+		}
+		out = append(out, v.Int64())
+	}
+	return out
+}
+
+func RewardEvents(t int, sc *Scenario, tr *Transcript) []RwEvent {
+	if tr.InitState == nil {
+		return nil
+	}
+	g := BuildGenesis(sc.Genesis)
+	base := pow10(sc.Genesis.OLTDecimal)
+	evs := []RwEvent{{T: t, Ev: "Init", Times: []int64{}, Shares: []int64{}, Closes: []int64{}, Votes: []RwVote{}, Credited: map[string]int64{}, Txs: []RwTx{}, S: rwState(tr.InitState)}}
+	prev := tr.InitState
+	var times []int64
+	restarted := false
+	for _, b := range tr.Blocks {
+		if b.State == nil {
+			break
+		}
+		times = append(times, b.Secs)
+		e := RwEvent{T: t, Ev: "Block", H: b.H, Times: append([]int64{}, times...), Cycle: optInt(prev, "reward", "blockSpeedCalculateCycle"),
+			Est: optInt(prev, "reward", "estimatedSecondsPerCycle"), Window: optInt(prev, "reward", "yearCloseWindow"),
+			Shares: optAmounts(prev, "reward", "yearBlockRewardShares"), Burnout: optInt(prev, "reward", "burnoutRate"),
+			Interval: optInt(prev, "reward", "rewardInterval"), Pool: prev.Bal["pool:"+RewardPoolAddr]["OLT"], PoolPost: b.State.Bal["pool:"+RewardPoolAddr]["OLT"],
+			Deleg: prev.Bal["pool:delegation"]["OLT"] > 0, Credited: map[string]int64{}, NoEvent: true, Restart: restarted,
+			Txs: []RwTx{}, Votes: []RwVote{}, Closes: []int64{}, S: rwState(b.State)}
+		restarted = false
+		for _, y := range b.State.RwYears {
+			e.Closes = append(e.Closes, y.Close)
+		}
+		for _, v := range b.Votes {
+			_, known := prev.Vals[v.Validator]
+			e.Votes = append(e.Votes, RwVote{V: v.Validator, P: v.Power, Signed: v.Signed, Known: known})
+		}
+		for _, ev := range b.Events {
+			switch ev.Type {
+			case "block_rewards":
+				e.NoEvent = false
+				for k, val := range ev.Attrs {
+					if strings.HasPrefix(k, "0lt") && len(k) == 43 {
+						n, _ := new(big.Int).SetString(val, 10)
+						if n != nil && n.Sign() != 0 {
+							e.Credited[g.Name(mustHex(k[3:]))] = n.Int64()
+						}
+					}
+				}
+			case "verif_restart":
+				restarted = true
+			}
+		}
+		for _, tx := range b.Txs {
+			if !accepted(tx) {
+				continue
+			}
+			if tx.Req.Kind == "REWARD_WITHDRAW" {
+				a, ok := argInt(tx.Req, "amt")
+				if !ok {
+					a = -1
+				}
+				e.Txs = append(e.Txs, RwTx{K: "WITHDRAW", V: tx.Req.S("v"), Signer: tx.Req.S("signer"), A: a * base})
+			}
+		}
+		evs = append(evs, e)
+		prev = b.State
+	}
+	return evs
 }
